@@ -4,7 +4,9 @@ from vlib import *
 from l2common import *
 import streams
 
-THEOREMS = ["apply_conforming", "stated_place_wins", "section_writes_new_version"]
+THEOREMS = ["apply_conforming", "stated_place_wins", "section_writes_new_version", "parse_normal_header",
+            "normal_roundtrip", "normal_roundtrip_sides", "normal_body_roundtrip", "normal_roundtrip_conforming",
+            "script_conf", "script_wf", "normal_diff_applies", "normal_diff_reverses"]
 
 K20 = ("K20-top-insertion", "context-free insertion at the top of a non-empty file (diff -U0 '@@ -0,0 +1 @@', normal '0a1', -C0 '*** 0 ****') is rejected")
 K21 = ("K21-zero-context-operation", "zero-context diff whose first hunk removes line 1 ('@@ -1 +0,0 @@', normal '1d0') is taken for a file deletion: 'Not deleting file' + exit 1 although the content is right")
